@@ -21,6 +21,9 @@ CANON_MAT = {"mode": "u2mem", "order_key": None, "perm_key": None, "ds_names": T
 
 # corpus worlds whose output depends on call history through a listed known finding
 LEAKY_CORPUS = ("TestMathFont-Regular.ufo", "ColorTest.ufo")
+# features.fea uses include() relative to the UFO *path*: an in-memory font has no
+# path, so memory-vs-disk legitimately differs (the include cannot be resolved)
+PATH_DEPENDENT_CORPUS = ("Bug108.ufo",)
 SDES = [0, 1, 1700000000, 2147483648, 4102444800]
 
 
@@ -28,7 +31,7 @@ def pick_world(rng, p_corpus=0.2, max_glyphs=12):
     if rng.random() < p_corpus:
         while True:
             w = rng.choice(corpusworlds.all_corpus_worlds())
-            if not any(u in LEAKY_CORPUS for u in w["corpus"]):
+            if not any(u in LEAKY_CORPUS + PATH_DEPENDENT_CORPUS for u in w["corpus"]):
                 return w
     return world.gen_family(rng, forbid=gen07.LEAKY, max_glyphs=max_glyphs)
 
@@ -48,8 +51,28 @@ def gen_case(seed, profile=None):
         # shared long-lived option objects are part of the history dimension only:
         # keep refs (the same object may serve several steps of one variant)
     case = {"id": cid, "seed": seed, "world": {"spec": spec}, "sde": rng.choice(SDES), "steps": steps,
-            "info": {"n_fonts": info["n_fonts"], "has_ds": info["has_ds"]}}
+            "info": {"n_fonts": info["n_fonts"], "has_ds": info["has_ds"],
+                     "lib_filters": info.get("lib_filters", [])}}
     return case, rng
+
+
+ANCHOR_MOVING_LIB = ("transformations", "transformationsfilter", "propagateanchors", "propagateanchorsfilter")
+ANCHOR_MOVING_CLS = ("TransformationsFilter", "PropagateAnchorsFilter", "PropagateAnchorsIFilter")
+
+
+def varfea_anchor_gap(case, step):
+    """Precondition of the open finding KF-C08-varfea-unfiltered-anchors: a
+    variable-feature build whose filters move or add anchors."""
+    if not step["op"].startswith("compileVariable"):
+        return False
+    o = step.get("opts", {})
+    if o.get("variableFeatures") is False:
+        return False
+    fl = o.get("filters")
+    lib_active = fl is None or "..." in fl
+    if lib_active and any(n in ANCHOR_MOVING_LIB for n in case.get("info", {}).get("lib_filters", [])):
+        return True
+    return any(isinstance(d, dict) and d.get("cls") in ANCHOR_MOVING_CLS for d in (fl or []))
 
 
 def canonical_variant():
@@ -84,7 +107,7 @@ def gen_variant(rng, case, vid, inc, extents):
                     faulted[str(i)] = {"kind": rng.choice(["trace", "trace", "mem"]),
                                        "at": rng.randint(1, ext["calls"]),
                                        "gran": "call"}
-    inplace = [i for i in range(n) if rng.random() < 0.15]
+    inplace = [i for i in range(n) if rng.random() < 0.15 and not varfea_anchor_gap(case, case["steps"][i])]
     return {"vid": vid, "inc": inc, "mat": mat, "env": env, "fresh": fresh, "order": order,
             "repeat": repeat, "faulted": faulted, "inplace": inplace}
 
